@@ -29,6 +29,6 @@ YOUR TASK: produce TWO independent changes (patches) to the library source under
 How to run things:
  * Python with the library's dependencies: /venv/bin/python. To import the worktree's copy (not the installed one) and the ICU libraries it needs: `cd {wt} && PYTHONPATH={wt} LD_LIBRARY_PATH=/root/miniconda/lib /venv/bin/python your_demo.py`. Check `pyoda_time.__file__` starts with {wt}.
  * The pinned test suite (must still report exactly `393 passed`; the 68 collection errors are expected in this sandbox because the suite runs without the ICU path): `cd {wt} && PYTHONPATH={wt} /venv/bin/python -m pytest -ra -q -p no:cacheprovider --timeout=900 --continue-on-collection-errors 2>&1 | tail -3`.
- * Optional but appreciated: the full suite with ICU (`cd {wt} && PYTHONPATH={wt} LD_LIBRARY_PATH=/root/miniconda/lib /venv/bin/python -m pytest -q -p no:cacheprovider -x -n 8 2>&1 | tail -3`, about a minute, normally `10356 passed`) — prefer changes that keep it green too, and say whether it stays green.
+ * Optional but appreciated: the full suite with ICU (`cd {wt} && PYTHONPATH={wt} LD_LIBRARY_PATH=/root/miniconda/lib /venv/bin/python -m pytest -q -p no:cacheprovider -x -n 8 2>&1 | tail -3`, about a minute, normally `10256 passed`) — prefer changes that keep it green too, and say whether it stays green.
 For each change i in (1, 2): make the edit in the worktree, verify (a) the pinned suite still gives 393 passed, (b) the demo FAILS (non-zero exit, with a clear message showing the property violated), then save `git -C {wt} diff > /tmp/mutout_{pid}/patch{{i}}.diff`, save the demo as /tmp/mutout_{pid}/demo{{i}}.py (a standalone script: exit 0 = property holds on that input, exit 1 = violated; it must use only the public or semi-public API of pyoda_time), then revert the worktree (`git -C {wt} checkout -- .`) and verify the demo PASSES on the unchanged code. Also write /tmp/mutout_{pid}/meta{{i}}.json with keys: property ("{pid}"), summary (one sentence on what was changed), needs (what specific input/sequence/state is needed for the breakage to manifest), files (list), pinned_suite ("393 passed"), full_suite (result or "not run"), demo_fails_with_patch (true), demo_passes_without_patch (true).
 Leave the worktree clean (unchanged) at the end. Final message: for each change, one paragraph (what, where, what it needs to manifest) and the demo's output with and without the patch.""")
